@@ -144,6 +144,56 @@ fn build(tier: Tier) -> Vec<Scenario> {
             ));
         }
     }
+    // breadth of the public API: every remaining stateless/keyed/timestamp operator and every sink
+    let api_unary = [RichMap, RichFilterMap, RichFlatMap, Flatten, Inspect, MapMemo, MapMemoBy, UniqueAssoc, KeyedPipe, KeyedRich, KeyedShuffle, RepartBy, Stamp, StampShuffle, KeyedStamp, WinAllCount];
+    let api_sinks = [SinkCount, SinkVecAll, SinkCollect, SinkCollectAll, SinkChan, SinkChanPar, SinkForEach];
+    let mut api_progs: Vec<Program> = vec![];
+    for x in &api_unary {
+        api_progs.push(vec![x.clone()]);
+        api_progs.push(vec![Shuffle, x.clone(), Map]);
+        if tier == Tier::Thorough {
+            api_progs.push(vec![x.clone(), GbSum]);
+            api_progs.push(vec![ReplOne, x.clone()]);
+        }
+    }
+    for k in &api_sinks {
+        api_progs.push(vec![Map, k.clone()]);
+        api_progs.push(vec![Shuffle, Filter, k.clone()]);
+        api_progs.push(vec![Dup, Map, k.clone(), GbSum, Sink]);
+    }
+    api_progs.push(vec![Dup, Map, KeyedMerge]);
+    api_progs.push(vec![Dup, Shuffle, Swap, Shuffle, KeyedMerge]);
+    api_progs.push(vec![Replay(2, vec![KeyedPipe])]);
+    api_progs.push(vec![Replay(2, vec![Shuffle, Flatten])]);
+    api_progs.push(vec![Iterate(2, vec![RichFlatMap])]);
+    api_progs.push(vec![Iterate(2, vec![KeyedRich])]);
+    api_progs.push(vec![Replay(2, vec![StampShuffle])]);
+    for (cfg, src) in &cfgs {
+        for prog in api_progs.iter().filter(|p| well_formed(p, src.rep()).is_some()) {
+            for input in [vec![1i64, 2, 3, 4, 5], vec![]] {
+                if input.is_empty() && (tier == Tier::Quick && !prog.last().map(|i| i.is_sink()).unwrap_or(false)) {
+                    continue;
+                }
+                let src = match src {
+                    SrcKind::Par(a) => SrcKind::Par(a.iter().cycle().take(input.len()).copied().collect()),
+                    s => s.clone(),
+                };
+                out.push(program_scenario("C01/api", prog, &input, src, cfg, bound, &ORDERS3[..if tier == Tier::Quick { 1 } else { 3 }], String::new()));
+            }
+        }
+    }
+    // the same on two hosts (sinks that hand their result to the caller of this host only on
+    // local layouts: a channel / closure sink yields an empty result on the other hosts)
+    {
+        let cfg = JobCfg { layout: Layout::Remote(vec![1, 1]), batch: BatchMode::fixed(2), capacity: 0 };
+        let src = SrcKind::Par(vec![0, 1, 0, 1, 1]);
+        for prog in api_progs.iter().filter(|p| well_formed(p, src.rep()).is_some()) {
+            if prog.iter().any(|i| matches!(i, SinkChan | SinkChanPar | SinkForEach)) {
+                continue;
+            }
+            out.push(program_scenario("C01/api", prog, &[1, 2, 3, 4, 5], src.clone(), &cfg, if tier == Tier::Quick { 0 } else { 1 }, &ORDERS3[..1], String::new()));
+        }
+    }
     // remote layouts, heterogeneous hosts
     let remote_progs: Vec<Program> = vec![
         vec![Map],
